@@ -222,7 +222,7 @@ def parts(tier):
             strategy=sim.histories(
                 weights={'req': 3},
                 spec_kw={'kinds': ('task', 'task', 'analysis', 'analysis',
-                                   'regress')},
+                                   'regress'), 'selfref': True},
             ),
             cases=1600 if q else 50000, batch=200,
         ),
